@@ -358,6 +358,16 @@ func (run *runner) exec(or *OpResult, res *ImplRun) {
 			}
 			close(c.closed)
 		}()
+	case "badjoin":
+		// HELLO for a realm that does not exist and cannot be created (not a
+		// URI): answered with ABORT, nothing else happens; in particular the
+		// router goes on attaching other clients afterwards.
+		cli, rtr := transport.LinkedPeersQSize(16)
+		go func() { cli.Send() <- &wamp.Hello{Realm: "No Such Realm", Details: orEmptyDict(op.Hello).ToDict()} }()
+		if err := run.rt.AttachClient(nonLocalPeer{rtr}, nil); err == nil {
+			or.Failed = "attach to an impossible realm succeeded"
+		}
+		cli.Close()
 	case "drop":
 		c := run.clients[op.Sess]
 		if c == nil || c.dropped || isClosed(c) {
